@@ -316,6 +316,18 @@ func (store *HStore) GC(bucketID, beginChunkID, endChunkID, noGCDays int, merge,
 		return
 	}
 
+	// register the pass before it is spawned: the check above and the
+	// registration done by the pass itself were two separate steps, so two
+	// requests in quick succession both started a pass on the same bucket
+	store.gcMgr.mu.Lock()
+	if _, exists := store.gcMgr.stat[bkt]; exists {
+		store.gcMgr.mu.Unlock()
+		err = fmt.Errorf("gc on bkt: %d already running", bucketID)
+		return
+	}
+	store.gcMgr.stat[bkt] = &GCState{Begin: begin, End: end, Running: true}
+	store.gcMgr.mu.Unlock()
+
 	go store.gcMgr.gc(bkt, begin, end, merge)
 	return
 }
